@@ -91,7 +91,9 @@ Proof. exact prune_sound_stretchy. Qed.
        graphs - built by lcapy for the netlist quoted in LayoutSolve.v - a witness placement satisfies every
        constraint, and the placement the modelled rules compute violates one.  These are the open findings
        Graph.assign_stretchy:...:dangling-path / unwalked-neighbour and Graph.assign_fixed:...:rigid-fixed-chain /
-       squeezed-path. *)
+       squeezed-path and Graph.assign_stretchy:...:walk-not-longest-path (solve_offpath_refuted: a gnode positioned as
+       a passer-by of another gnode's walk with the stretch of a different path; solve_offpath_position: where it is
+       put, and that the same graph with the two unknown gnodes in the other work-list order is placed feasibly). *)
 Theorem C20_solve_dangling_refuted :
   check (cstrs_of_adj ex_dangling_F 4%nat 5%nat) (posof ex_dangling_wit) = true /\
   check (cstrs_of_adj ex_dangling_F 4%nat 5%nat) (posof (st_pos (solve ex_dangling_F ex_dangling_R ex_dangling_gn 4%nat 5%nat))) = false.
@@ -146,6 +148,8 @@ Print Assumptions C20_solve_dangling_refuted.
 Print Assumptions C20_solve_unwalked_refuted.
 Print Assumptions solve_rigid_eq_refuted.
 Print Assumptions solve_squeezed_refuted.
+Print Assumptions solve_offpath_refuted.
+Print Assumptions solve_offpath_position.
 Print Assumptions C20_prune_keeps_fixed.
 Print Assumptions C20_prune_in.
 Print Assumptions C20_prune_sound_stretchy.
